@@ -17,6 +17,12 @@ def run(res):
     Kx = dict(Kr, BodyExceptionCleansUp=False)
     res.model_check_py('Coroutines', 'c08_asimpl_body_exception', Kx, invariants=cc.INVARIANTS, properties=cc.PROPERTIES,
                        expect_violation=('SentinelFirst', 'StateCoherent', 'StructuresAgree', 'OneStepPerFrame', 'NoBad'), count=False)
+    # 'never earlier' at the finest grain: one time unit = 2^-31 s, a wait of 2^29 units (0.25 s), dt values one unit
+    # short of it: any tolerance in the wake-up comparison shows (all values exactly representable)
+    W = 2 ** 29
+    Kf = dict(K, G=('g1', 'g2'), Script={'g1': (('y', W), ('y', 0)), 'g2': (('y', 0), ('y', W), ('y', 0))}, Dts={0, W - 1, W}, MaxTimer=2 * W,
+              WithKill=False, _Q=2.0 ** -31)
+    cc.check_and_replay(res, 'c08_fine_grain', Kf, depth_all=0, walks=1000, walk_len=20)
     # (B) recorded executions: 7 coroutines with random scripts (waits up to 7, in-body start/kill), random schedules
     for i in range(4 if th else 2):
         res.seed += i
